@@ -39,6 +39,11 @@ RoundLaws == d = 0 \/ \A mode \in S!Modes :
    /\ S!RoundQS(0 - n, 0 - d, mode) = S!RoundQ(n, d, mode)                      \* sign-normalised divisor
    /\ S!RoundQ(0 - n, d, mode) = 0 - S!RoundQ(n, d, CASE mode = "RoundCeiling" -> "RoundFloor" [] mode = "RoundFloor" -> "RoundCeiling" [] OTHER -> mode)
 
+\* AP_Round.tla carries a native copy of RoundQ for Apalache (symbolic n: the laws above for EVERY integer numerator);
+\* the copy must be the oracle's function
+AP == INSTANCE AP_Round
+NativeCopy == d = 0 \/ \A mode \in S!Modes : AP!RoundQ(n, d, mode) = S!RoundQ(n, d, mode)
+
 \* ---- laws between the operation predicates on the miniature Decimal domain ----
 Scales == 0..2
 X(f) == [c |-> n, f |-> f]                 \* n doubles as a coefficient, |n| <= 127 is enforced by the config
